@@ -17,6 +17,7 @@ Core Lean only.
 -/
 import CBV.Model.Common
 import CBV.Gen.Tables
+import CBV.Gen.TC08
 
 namespace CBV.C08
 
